@@ -9,7 +9,10 @@ the outgoing stream into send() calls, every composition of the incoming
 stream into read()/recv() calls and every interleaving of the two call
 sequences is executed; the oracle is vf.refproto.cfb8.CFB8 (hand-built shift
 register over single-block AES, key = IV = secret), run once over the whole
-stream of each direction.
+stream of each direction.  Part A-seg does the same for the receive
+direction when the raw object UNDER the wrappers returns short reads (the
+ciphertext arrives in segments): every segmentation of the ciphertext x every
+split of the caller's requests.
 
 Part B (key exchange).  encrypt_token_and_secret under a 1024- and a 2048-bit
 key: the key holder decrypts with PKCS#1 v1.5 and must recover token and
@@ -23,7 +26,13 @@ also when a packet is waiting in the outgoing queue while the encryption
 request is handled (the response must still leave in the clear, RSA only),
 and also when the received stream is read through BOTH wrappers that
 LoginReactor installed (connection.socket.recv mixed with
-connection.file_object.read: one continuous CFB8 stream).
+connection.file_object.read: one continuous CFB8 stream).  C-hist: HISTORIES
+of logins on one Connection object (logins that reach play, logins the server
+ends in the login state before or after the encryption response, reconnects
+made by the driver or by the exception handler): every login's secret is the
+draw made in that login, all pairwise distinct.  C-seg: the same end to end
+with vnet's read segmentation, so that encrypted packet bodies reach the
+client in two or more short reads.
 """
 import hashlib
 import itertools
@@ -56,6 +65,25 @@ RULE = (
     'partitions with both cuts on a grid (quick: stride 53 / 211; thorough: '
     'stride 7 / 29, plus the offsets 1,2,15,16,17,31,32,33), the in stream '
     'cut at the mirrored offsets, 4 secrets.  '
+    'A-seg (the raw object under the wrappers returns SHORT reads: one raw '
+    'read/recv hands out at most the rest of the current segment): in '
+    'stream of n = 1..8 (quick) / 1..9 (thorough) bytes, 4 secrets x 2 '
+    'contents (seed-derived, ff; only the first above n = 6 / 8) x ALL '
+    'compositions of the ciphertext into segments x ALL compositions of n '
+    'into caller requests x 3 receive styles (all file.read, all '
+    'socket.recv, alternating per call); the caller repeats a request for '
+    'the missing rest until it is filled or a call returns nothing (as '
+    'PacketReactor.read_packet does); plus, for n = 1..5 (thorough 1..6), '
+    'the same with the last request asking for 3 bytes more than the stream '
+    'has.  Oracle: no call returns more than asked, every returned chunk '
+    'continues the reference CFB8 decryption of the whole ciphertext (so the '
+    'concatenation equals it), nothing is lost before the stream ends; how '
+    'many raw reads a wrapper call makes is NOT judged.  '
+    'A-seg-KiB: 1024 and 4096 bytes, every 2-segment split (quick: every '
+    '3rd of 4 KiB) and the 3-segment splits on the KiB grid, requests '
+    'cycling through {whole, (1,1,rest), (2,rest), (size-1,1)}, and '
+    'equal segments of 1, 16, 17, 536, 1460 bytes x those four request '
+    'patterns and requests of segment size + 1; receive style cycles.  '
     'B: every token length 1..64 x {zeros, ff, counter} x 4 secrets x '
     '{1024, 2048}-bit key.  '
     'C: k = 1..3 consecutive logins x {same Connection object, separate '
@@ -74,9 +102,37 @@ RULE = (
     'strict connection.socket.recv / connection.file_object.read '
     'alternation, then keep-alive frames must still be echoed by the '
     'networking thread.  '
+    'C-hist: histories of logins on ONE Connection object; a login ends in '
+    'one of 5 ways: play (encryption, success, keep-alives / chat both ways / '
+    'one position-and-look, client disconnects), kick (encryption, then an '
+    'encrypted login Disconnect right after the encryption response), drop '
+    '(encryption, then the server closes), junk (encryption, then 33 '
+    'non-CFB8 bytes and close), early (login Disconnect as first packet, no '
+    'encryption request).  ALL histories of length 1..3 (thorough 1..4) over '
+    'the 5 endings at protocol 757 (4-byte token), all of length 2 '
+    '(thorough 3) at 47 (64-byte token) and 340 (1-byte token), the next '
+    'connect() made by the driver once the client is quiet; plus reconnects '
+    'made by the exception handler handed to Connection (from the '
+    'networking thread): all (failing, any) pairs and all (failing, failing, '
+    'play) triples (thorough: (failing, failing, any)) at 757.  Judged per '
+    'login that got an encryption request: the secret the key holder '
+    'recovers is the ONE 16-byte draw encryption.os.urandom handed out '
+    'between that login\'s connect() and the next, the token comes back '
+    'exactly, everything the client sends afterwards decodes under '
+    'CFB8(secret), for play endings the echoes (keep-alive ids, teleport id '
+    'or position, chat) are exact; over the history all secrets are pairwise '
+    'distinct.  A login without encryption request is not judged.  '
+    'C-seg: the same through vnet with a read segmentation policy for the '
+    'server->client stream: {segments of 1, 2, 3, 5, 7, 16, 33 bytes that a '
+    'read never crosses, at most 2 / 4 / 8 bytes per read, half of what '
+    'could be returned} x protocols {47, 340, 757} x histories {play, play > '
+    'play}, and x {kick > play, junk > play} at 757 with a 64-byte token; '
+    'the 311-character chat message, the position-and-look and the '
+    'keep-alives then arrive in 2+ short reads (counted; guard).  '
     'Cases are enumerated without repetition (distinct by construction); a '
     'part-A case is non-trivial when at least one direction is split into two '
-    'or more calls, every B and C case is non-trivial.')
+    'or more calls, an A-seg case when at least one raw read was short, '
+    'every B and C case is non-trivial.')
 ASSUMPTIONS = [
     'single-block AES (ECB of one 16-byte block) of the cryptography package '
     'is correct; the CFB8 mode logic of the oracle is hand-built and checked '
@@ -86,8 +142,19 @@ ASSUMPTIONS = [
     'randomness QUALITY of os.urandom is out of scope: only the seam is '
     'decided (exactly one fresh 16-byte draw from the OS source, reached as '
     'encryption.os.urandom, per login, used as AES key and as IV)',
-    'the raw transport under the wrappers hands out exactly min(n, '
-    'available) bytes per read/recv and accepts every send completely',
+    'in A-full / A-long / A-empty / A-KiB the raw transport under the '
+    'wrappers hands out exactly min(n, available) bytes per read/recv; in '
+    'A-seg it hands out min(n, rest of the current segment) (never nothing '
+    'before the end of the stream, never more than asked); every send is '
+    'accepted completely',
+    'A-seg judges the receive direction alone (no sends interleaved); '
+    'independence of the directions under exact raw reads is A-full',
+    'C-hist: a login is the span from one connect() call to the next; the '
+    'exception handler given as handle_exception keeps the process quiet '
+    'and, in the handler variant, calls connect() itself (documented use)',
+    'C-seg: vnet decides how many bytes one raw read returns; the policies '
+    'are deterministic functions of the stream offset / request, not all '
+    'segmentations of the login byte stream',
     'stream contents are structured (zeros, ff, counter, seed-derived), not '
     'all 256^n byte strings',
     'connection.socket and connection.file_object read the same unbuffered '
@@ -600,7 +667,7 @@ def w_kib(ctx, task):
                     'wire_head': ref_enc(secret, out_plain)[:16]})
 
 
-# -- part A-seg: the UNDERLYING transport returns short reads ------------------
+# -- part A-seg: the UNDERLYING transport returns short reads ----------------
 
 class _SegStream(object):
     """Raw byte source whose data arrived in segments: one call hands out at
@@ -1233,7 +1300,7 @@ def w_c(ctx, task):
                                        for q in x.result['logins']]})
 
 
-# -- part C-hist / C-seg: login HISTORIES on one Connection object --------------
+# -- part C-hist / C-seg: login HISTORIES on one Connection object ----------
 
 ENDS = ('play', 'kick', 'drop', 'junk', 'early')
 END_TEXT = {
@@ -1569,6 +1636,8 @@ def w_h(ctx, task):
                     ctx.cls(H_HANDLER)
             if rec.get('short_encrypted_reads'):
                 ctx.cls(H_SHORT, rec['short_encrypted_reads'])
+                ctx.cls(H_SHORT + ', policy %s' % ' '.join(map(str, policy)),
+                        rec['short_encrypted_reads'])
     coll = _Coll()
     if not res:
         ctx.outcome('C-hist ok: every secret is the fresh draw of its login, '
@@ -1621,7 +1690,7 @@ def hist_tasks(ctx):
 def bounds(ctx):
     if ctx.thorough:
         return dict(full=7, full_both_pairs=6, long=range(8, 13),
-                    both_pairs_to=10, empty=5, seg=10, seg_both_pairs=8,
+                    both_pairs_to=10, empty=5, seg=9, seg_both_pairs=8,
                     seg_over=6)
     return dict(full=6, full_both_pairs=6, long=range(7, 11),
                 both_pairs_to=8, empty=5, seg=8, seg_both_pairs=6,
@@ -1724,6 +1793,8 @@ def run(ctx):
             'A-seg KiB: 4096 bytes in many segments',
             H_SECOND, H_THIRD, H_FROM_LOGIN, H_FROM_EARLY, H_FROM_PLAY,
             H_HANDLER, H_SHORT] + ['C-hist: login ending ' + e for e in ENDS]
+    need += [H_SHORT + ', policy %s' % ' '.join(map(str, pol))
+             for pol in SEG_POLICIES]
     missing = [k for k in need if not ctx.classes.get(k)]
     if missing and not ctx.violations:   # (a broken tree may not get there)
         raise ToolError('vacuity guard: classes never hit: %r' % missing)
